@@ -30,7 +30,7 @@ type In struct {
 	Kind    string   // dsc | changes
 	Op      string   // copy | move | remove
 	Names   []string // listed names of the referenced files (as written in the control file)
-	Dest    string   // emptydir | samename | samename-longer | samename-samesize | regularfile | missing | child | parent | dir-named-like-file | dir-named-like-control
+	Dest    string   // emptydir | samename | samename-longer | samename-samesize | regularfile | missing | child | parent | dir-named-like-file | dir-named-like-control | own | own-slash | own-dot | own-roundabout
 	Gone    int      // index+1 of a referenced file that does not exist at the source (0 = all present)
 	Sums    []string `json:",omitempty"` // names listed ONLY in Checksums-Sha256 / Checksums-Sha1 (not in Files)
 	NoFiles bool     `json:",omitempty"` // the control file has no Files field at all
@@ -51,8 +51,27 @@ func (in In) dstRel() string {
 		return filepath.Join("incoming", "src", "queue")
 	case "parent":
 		return "incoming"
+	case "own", "own-slash", "own-dot", "own-roundabout":
+		return filepath.Join("incoming", "src") // the upload's own directory, spelled in different ways (see dstArg)
 	}
 	return filepath.Join("incoming", "dst")
+}
+
+func (in In) own() bool { return strings.HasPrefix(in.Dest, "own") }
+
+// dstArg is the destination as handed to the library: for the upload's own directory also with a trailing slash, a
+// trailing "/." and by way of a sibling ("../src").
+func (in In) dstArg(root string) string {
+	d := filepath.Join(root, in.dstRel())
+	switch in.Dest {
+	case "own-slash":
+		return d + "/"
+	case "own-dot":
+		return d + "/."
+	case "own-roundabout":
+		return d + "/../src"
+	}
+	return d
 }
 
 // listedSize is the size the control file records for a referenced file: normally its real size; Skew makes the entry at
@@ -225,7 +244,7 @@ func execute(in In) (*result, error) {
 		return nil, err
 	}
 	defer os.RemoveAll(root)
-	src, dst := filepath.Join(root, "incoming", "src"), filepath.Join(root, in.dstRel())
+	src, dst := filepath.Join(root, "incoming", "src"), in.dstArg(root)
 	os.MkdirAll(src, 0o755)
 	// sentinels outside both directories
 	os.WriteFile(filepath.Join(root, "sentinel"), []byte("sentinel\n"), 0o644)
@@ -277,8 +296,8 @@ func execute(in In) (*result, error) {
 			os.WriteFile(filepath.Join(dst, filepath.Base(n)), []byte(strings.Repeat("o", len(content(n)))), 0o644)
 		}
 		os.WriteFile(filepath.Join(dst, in.ctlName()), []byte(strings.Repeat("o", len(in.controlText()))), 0o644)
-	case "child", "parent":
-		os.MkdirAll(dst, 0o755)
+	case "child", "parent", "own", "own-slash", "own-dot", "own-roundabout":
+		os.MkdirAll(filepath.Join(root, in.dstRel()), 0o755)
 	case "dir-named-like-file", "dir-named-like-control":
 		// the destination holds a DIRECTORY (not empty) under the name a file is about to get: the last referenced file's,
 		// or the control file's. The file cannot be put there, so the operation fails - with everything a failure implies.
@@ -507,7 +526,8 @@ func check(scen string, in In) ([]*mc.Violation, *result) {
 		ctlInDst = false // the untouched file of the same name that was there before is not "the control file in the destination"
 	}
 	blocked := in.Dest == "dir-named-like-file" || in.Dest == "dir-named-like-control"
-	dstIsDir := in.Dest == "emptydir" || in.Dest == "samename" || in.Dest == "samename-longer" || in.Dest == "samename-samesize" || in.Dest == "child" || in.Dest == "parent" || blocked
+	own := in.own() // the destination is the upload's own directory: everything is already there, and stays as it is
+	dstIsDir := own || in.Dest == "emptydir" || in.Dest == "samename" || in.Dest == "samename-longer" || in.Dest == "samename-samesize" || in.Dest == "child" || in.Dest == "parent" || blocked
 
 	// I5 containment (always): every path the library touched lies in the control file's directory or the destination; sentinels intact
 	for _, op := range res.ops {
@@ -556,7 +576,7 @@ func check(scen string, in In) ([]*mc.Violation, *result) {
 	completeSuccess := func() (bool, string) {
 		switch in.Op {
 		case "copy", "move":
-			if res.fname != filepath.Join(res.root, dstRel, in.ctlName()) && res.fname != filepath.Join(res.root, dstRel)+"/"+in.ctlName() {
+			if res.fname != filepath.Join(res.root, dstRel, in.ctlName()) && res.fname != filepath.Join(res.root, dstRel)+"/"+in.ctlName() && !(own && filepath.Clean(res.fname) == filepath.Join(res.root, dstRel, in.ctlName())) {
 				return false, "handle points at " + rel(res.root, res.fname)
 			}
 			if res.after[ctlDst] != ctlOrig {
@@ -565,7 +585,7 @@ func check(scen string, in In) ([]*mc.Violation, *result) {
 			if ok, why := refsInDstComplete(); !ok {
 				return false, why
 			}
-			if in.Op == "move" {
+			if in.Op == "move" && !own {
 				if _, still := res.after[ctlSrc]; still {
 					return false, "control file still at the source after a move"
 				}
@@ -769,6 +789,10 @@ func Run(r *mc.Run) {
 	// destinations inside / around the upload's own directory, and listed sizes that do not match the files
 	for _, kind := range []string{"dsc", "changes"} {
 		for _, op := range []string{"copy", "move"} {
+			for _, d := range []string{"own", "own-slash", "own-dot", "own-roundabout"} {
+				bases = append(bases, In{Kind: kind, Op: op, Names: plain[2], Dest: d, Event: "none"})
+			}
+			bases = append(bases, In{Kind: kind, Op: op, Names: plain[3], Dest: "own", Event: "none"})
 			bases = append(bases, In{Kind: kind, Op: op, Names: plain[2], Dest: "dir-named-like-file", Event: "none"}, In{Kind: kind, Op: op, Names: plain[2], Dest: "dir-named-like-control", Event: "none"},
 				In{Kind: kind, Op: op, Names: plain[1], Dest: "dir-named-like-file", Event: "none"})
 			bases = append(bases, In{Kind: kind, Op: op, Names: plain[2], Dest: "child", Event: "none"}, In{Kind: kind, Op: op, Names: plain[2], Dest: "parent", Event: "none"})
